@@ -70,7 +70,7 @@ func VerifC04First() {
 	pm, plug := zzOnePlugin("p0")
 	svr := zzService(ver, pm)
 	conn := &zzConn{name: "c"}
-	kind := zzverif.Choice("firstMsg", 9)
+	kind := zzverif.Choice("firstMsg", 10)
 	switch kind {
 	case 0:
 		conn.script = []msg.Message{&msg.Login{RunID: "r1", ClientSpec: msg.ClientSpec{AlwaysAuthPass: zzverif.Bool("aap")}}}
@@ -90,6 +90,10 @@ func VerifC04First() {
 		// a visitor for a secret proxy nobody registered, with or without a (stale) run id
 		svr.rc.VisitorManager = visitor.NewManager()
 		conn.script = []msg.Message{&msg.NewVisitorConn{ProxyName: "nosuch", RunID: []string{"", "gone"}[zzverif.Choice("vrun", 2)], SignKey: "k"}}
+	case 8:
+		// a frame of a registered type whose body is the JSON literal null: the codec yields neither a
+		// message nor an error
+		conn.script = []msg.Message{nil}
 	default:
 		conn.script = nil // read error / malformed frame
 	}
